@@ -97,7 +97,7 @@ func (e *Engine) registerIOExterns(reg regFn) {
 			var target *Addr
 			var n int
 			var tt types.Type
-			inMem := isDynOf(r, "*bytes.Reader")
+			inMem := x.dynIs(st, r, "*bytes.Reader")
 			if data.Dyn != nil && data.Payload != nil {
 				if p, ok := data.Dyn.Underlying().(*types.Pointer); ok {
 					if isByteSlice(p.Elem()) {
@@ -144,14 +144,14 @@ func (e *Engine) registerIOExterns(reg regFn) {
 			st.assume(fmt.Sprintf("(= (blen %s) (- (blen %s) %d))", R2, R, n)) // implied (blen_drop); stated to spare the solver the chain
 			st.ghostWrite(g, ref, R2)
 			return []callOut{{st: st, val: nilError(errT)}, out2}
-		}, "gh:rem", "gh:$iofail")
+		}, "gh:rem", "gh:$iofail", "$inttargets")
 
 	reg("io.ReadFull", "io.ReadFull(r, p): if at least len(p) bytes remain: fills p with exactly the next len(p) bytes, returns (len(p), nil); otherwise (or on an I/O error) returns (k, err != nil) with k < len(p) (k = 0 allowed for len(p) = 0 only with nil error), p's window arbitrary, part of the input consumed",
 		func(x *Exec, st *State, fr *frame, c *ssa.CallCommon, args []Val, pos token.Pos) []callOut {
 			e := x.e
 			e.needBytes()
 			st.groups["bytes"] = true
-			return x.readFull(st, args[0], args[1], isDynOf(args[0], "*bytes.Reader"), false)
+			return x.readFull(st, args[0], args[1], x.dynIs(st, args[0], "*bytes.Reader"), false)
 		}, "gh:rem", "E:uint8", "gh:$iofail")
 
 	reg("io.CopyN", "io.CopyN(io.Discard, r, n): if at least n bytes remain: consumes exactly n bytes, returns (n, nil); otherwise (or on an I/O error) (k < n, err != nil)",
@@ -211,7 +211,7 @@ func (e *Engine) registerIOExterns(reg regFn) {
 				return nil
 			}
 			var outs []callOut
-			if !isDynOf(w, "*bytes.Buffer") {
+			if !x.dynIs(st, w, "*bytes.Buffer") {
 				// writes to an in-memory buffer cannot fail
 				s2 := st.clone()
 				s2.note("binary.Write fails")
